@@ -23,7 +23,7 @@ func pairs(r *core.Run) bool {
 		if isStateful(s.Name) {
 			continue
 		}
-		for _, en := range entries {
+		for _, en := range entriesOf(s.Name) {
 			jobs = append(jobs, job{s.Name, en})
 		}
 	}
@@ -69,7 +69,7 @@ func pairs(r *core.Run) bool {
 	// P2: faulted call, then every unfaulted call
 	var unfaulted []Call
 	for _, s := range allShapes {
-		for _, en := range entries {
+		for _, en := range entriesOf(s.Name) {
 			unfaulted = append(unfaulted, Call{Entry: en, Shape: s.Name})
 		}
 	}
